@@ -101,6 +101,10 @@ func (fx *fnExec) callMods(in ssa.CallInstruction, allocs map[*ssa.Alloc]bool, k
 		if c != nil && c.Pure {
 			continue
 		}
+		if ex.HavocCallsC != nil && ex.AbstractNames[callee.Name()] {
+			havocAllMod()
+			continue
+		}
 		if c != nil && !c.Inline && !c.Lemma {
 			if c.HavocAll {
 				ex.havocAllKeys(fx, c, callee, keys)
@@ -135,7 +139,14 @@ func (fx *fnExec) callMods(in ssa.CallInstruction, allocs map[*ssa.Alloc]bool, k
 			// pointer arguments to locals of the caller
 			for _, a := range cc.Args {
 				if _, ok := a.Type().Underlying().(*types.Pointer); ok {
-					fx.modTargets(a, allocs, keys)
+					switch a.(type) {
+					case *ssa.Alloc, *ssa.FieldAddr, *ssa.IndexAddr:
+						// an address taken here: what the callee stores through it lands in this local,
+						// field or element
+						fx.modTargets(a, allocs, keys)
+					}
+					// a pointer value (parameter, loaded pointer): the callee's own stores through it
+					// are found by scanning the callee
 				}
 			}
 			if mc, ok := cc.Value.(*ssa.MakeClosure); ok {
